@@ -172,11 +172,15 @@ class eap(packet_base):
         elif self.code == self.REQUEST_CODE:
             (self.type,) \
                 = struct.unpack('!B', raw[self.MIN_LEN:self.MIN_LEN + 1 ])
-            # not yet implemented
+            # The type data is not interpreted.  hdr() emits only code, id
+            # and length, so keep type octet + type data as the payload.
+            self.next = raw[self.MIN_LEN:]
         elif self.code == self.RESPONSE_CODE:
             (self.type,) \
                 = struct.unpack('!B', raw[self.MIN_LEN:self.MIN_LEN + 1 ])
-            # not yet implemented
+            # The type data is not interpreted.  hdr() emits only code, id
+            # and length, so keep type octet + type data as the payload.
+            self.next = raw[self.MIN_LEN:]
         elif self.code == self.SUCCESS_CODE:
             self.next = None    # Success packets have no payload
         elif self.code == self.REQUEST_CODE:
